@@ -770,6 +770,22 @@ impl TypeLayout {
         Self::List(ListType::Open(Box::new(Cow::Owned(self))))
     }
 
+    /// The type with every generic that has been bound replaced by the type it stands for: once
+    /// `l.map(f)` is checked, its result `[G...]` is a list of the result type of `f`.
+    pub fn with_bound_generics(&self) -> Self {
+        match self {
+            Self::Generic(generic) => match generic.try_get_lock() {
+                Some(stands_for) => stands_for.with_bound_generics(),
+                None => self.clone(),
+            },
+            Self::List(ListType::Open(ty)) => ty.with_bound_generics().list_of(),
+            Self::Optional(Some(ty)) => {
+                Self::Optional(Some(Box::new(Cow::Owned(ty.with_bound_generics()))))
+            }
+            other => other.clone(),
+        }
+    }
+
     /// Returns whether a value is boolean. This function **does not** supply the value of the boolean.
     pub fn is_boolean(&self) -> bool {
         let me = self.get_type_recursively();
@@ -1879,7 +1895,7 @@ impl TypeLayout {
             return None;
         }
 
-        if matches!(op, Eq | Neq) && lhs == other && lhs.supports_equ() {
+        if matches!(op, Eq | Neq) && (lhs == other || other == lhs) && lhs.supports_equ() {
             return Some(TypeLayout::Native(NativeType::Bool));
         }
 
@@ -1899,7 +1915,7 @@ impl TypeLayout {
         let other = other.disregard_optional()?;
 
         // a present optional is the plain value it holds: `T? == T` is compared like `T == T`
-        if matches!(op, Eq | Neq) && lhs == other && lhs.supports_equ() {
+        if matches!(op, Eq | Neq) && (lhs == other || other == lhs) && lhs.supports_equ() {
             return Some(TypeLayout::Native(NativeType::Bool));
         }
 
